@@ -9,10 +9,12 @@
    The two std::vector<string> name lists are INSTRUMENTED: a vector [vec] is a size plus an
    indexed store, push_back is [vpush], operator[] is [vget], which checks  i < size  exactly
    like libstdc++'s assertion; an index outside the vector yields the result [OOB] (what
-   -D_GLIBCXX_ASSERTIONS turns into an abort on the real code).  The code is transcribed with its defect: the vector is filled by
-   a loop bounded by  ii < _rotnum && ii < max_rotation  (so its size is 1 + min(rotnum,1024)),
-   but the shifting loop runs  ii = _rotnum ... 1  and indexes  rlst[ii]  with the uncapped
-   count.  No proofs in this file. *)
+   -D_GLIBCXX_ASSERTIONS turns into an abort on the real code).  The vector is filled by a loop
+   bounded by  ii < _rotnum && ii < max_rotation  (so its size is 1 + min(rotnum,1024)) and,
+   since the repair a64fc7d, the shifting loop runs  ii = size - 1 ... 1.  The routines as they
+   were before the repair (loop  ii = _rotnum ... 1 : the uncapped count indexes rlst[ii]) are
+   kept as [rotate_orig] / [initialise_orig] for the refutation theorem only.
+   No proofs in this file. *)
 From Coq Require Import NArith List Ascii Bool Decimal.
 Import ListNotations.
 Local Open Scope char_scope.
@@ -177,20 +179,25 @@ Definition res_map (f : dir -> dir) (r : res) : res :=
 (* HAVE_COMPRESSION is not defined in this build (f8config.h defines FIX8_HAVE_COMPRESSION,
    logger.cpp tests the unprefixed name), so thislFile stays _pathname and a plain ofstream is
    opened, while the generation names do get the ".gz" suffix when the compress flag is set. *)
-Definition rotate (name : str) (rotnum : N) (append compress force : bool) (d : dir) : res :=
+Definition rotate_gen (orig : bool) (name : str) (rotnum : N) (append compress force : bool) (d : dir) : res :=
   let thisl := name in
   let shifted :=
     if (0 <? rotnum) && (negb append || force) then
       match build_names thisl (log_gen_name name compress) rotnum with
       | None => OutOfFuel
-      | Some rlst => shift_loop (N.to_nat (vlen rlst)) rlst rotnum d
+      | Some rlst =>
+          (* for (unsigned ii(rlst.size() - 1); ii; --ii)      before a64fc7d: ii(_rotnum) *)
+          shift_loop (N.to_nat (vlen rlst)) rlst (if orig then rotnum else vlen rlst - 1) d
       end
     else Ok d in
   res_map (if append then open_app thisl else open_trunc thisl) shifted.
 
+Definition rotate := rotate_gen false.
+Definition rotate_orig := rotate_gen true.
+
 (* ---------------------------------------------------------------- FilePersister::initialise *)
 (* directory effect only; dbFname = name, dbIname = name.idx *)
-Definition initialise (name : str) (rotnum : N) (purge : bool) (d : dir) : res :=
+Definition initialise_gen (orig : bool) (name : str) (rotnum : N) (purge : bool) (d : dir) : res :=
   let dbf := name in
   let dbi := name ++ s_idx in
   let nof := match lookup d dbf with None => true | Some _ => false end in
@@ -198,12 +205,17 @@ Definition initialise (name : str) (rotnum : N) (purge : bool) (d : dir) : res :
     let shifted :=
       if purge && (0 <? rotnum) then
         match build_names dbf (db_gen_name name) rotnum, build_names dbi (idx_gen_name name) rotnum with
-        | Some dblst, Some idxlst => shift_loop2 (N.to_nat (vlen dblst)) dblst idxlst rotnum d
+        | Some dblst, Some idxlst =>
+            (* for (unsigned ii(dblst.size() - 1); ii; --ii)   before a64fc7d: ii(_rotnum) *)
+            shift_loop2 (N.to_nat (vlen dblst)) dblst idxlst (if orig then rotnum else vlen dblst - 1) d
         | _, _ => OutOfFuel
         end
       else Ok d in
     res_map (fun d' => open_trunc dbi (open_trunc dbf d')) shifted
   else Ok d.        (* existing store opened read/write without O_CREAT: nothing changes *)
+
+Definition initialise := initialise_gen false.
+Definition initialise_orig := initialise_gen true.
 
 (* ---------------------------------------------------------------- case runner *)
 Inductive op : Type :=
